@@ -33,8 +33,11 @@ fn oracle(run: &Run) -> Vec<String> {
         bad.push("an unrelated actor stopped answering after A's failure".into());
     }
     let s_ev = sup_events("S");
+    if run.spawn_panicked {
+        bad.push("a panic in pre_start unwound into the spawner's own task instead of coming back as Err".into());
+    }
     if run.spawn_err.is_some() {
-        let expected_failure = sc.site == Site::PreStart && matches!(sc.prog, P::Err | P::Panic);
+        let expected_failure = sc.site == Site::PreStart && matches!(sc.prog, P::Err | P::Panic | P::PreludePanic);
         if !s_ev.is_empty() && (expected_failure || a.iter().all(|e| e.cb == Cb::PreStart)) {
             bad.push(format!("the spawn returned Err ({:?}) but the supervisor received {s_ev:?}", run.spawn_err));
         }
@@ -46,7 +49,7 @@ fn oracle(run: &Run) -> Vec<String> {
         }
         return bad;
     }
-    if sc.site == Site::PreStart && matches!(sc.prog, P::Err | P::Panic) {
+    if sc.site == Site::PreStart && matches!(sc.prog, P::Err | P::Panic | P::PreludePanic) {
         bad.push("pre_start failed but the spawner got Ok".into());
     }
     // (a task we cancel ourselves reports the cancellation through its join handle, as tokio does)
@@ -194,6 +197,17 @@ fn scenarios(thorough: bool) -> Vec<Sc> {
                 }
             }
         }
+        // the callback panics in its synchronous prelude (explicit `fn .. -> impl Future` form): still "a panic in
+        // the callback", contained and reported like any other
+        for site in [Site::PostStart, Site::Handle, Site::Sup, Site::PostStop, Site::PreStart] {
+            let mut s = base(kind, Variant::Linked, site, P::PreludePanic, Closer::None);
+            s.pg_event = site == Site::Sup;
+            v.push(s.clone());
+            if thorough {
+                s.variant = Variant::LinkedInstant;
+                v.push(s);
+            }
+        }
         // (a graceful stop whose reason happens to read "killed" is still a graceful stop)
         for closer in [Closer::Stop(Some("because")), Closer::Stop(None), Closer::Drain, Closer::Kill, Closer::Stop(Some("killed"))] {
             v.push(base(kind, Variant::Linked, Site::Handle, P::Awaits, closer.clone()));
@@ -239,11 +253,15 @@ pub fn plan(tier: &str) -> Plan {
     let mut units = Vec::new();
     for sc in scenarios(thorough) {
         let bound = if thorough { 3 } else { 2 };
-        units.push(Unit::explore(Job::new(format!("c04/{}", sc.name()), cfg.clone(), Some(bound), body(sc, oracle))));
+        // (a panic that does escape the actor's task must end that task only, as on a real runtime, for the oracle
+        // to see what the supervisor and the join handle were told)
+        let c = ExecCfg { tolerate_lib_panics: sc.prog == P::PreludePanic, ..cfg.clone() };
+        units.push(Unit::explore(Job::new(format!("c04/{}", sc.name()), c, Some(bound), body(sc, oracle))));
     }
     // the grid once more on the async-trait + monitors (+ cluster) build of the harness; there the
     // bystander monitors A and must be told the same, without the state
-    for sc in scenarios(false) {
+    // (callbacks written with async-trait have no synchronous prelude: those scenarios stay on the default build)
+    for sc in scenarios(false).into_iter().filter(|s| s.prog != P::PreludePanic) {
         units.push(alt_unit(format!("alt/c04/{}", sc.name()), cfg.clone(), Some(1), body(sc, oracle), 1));
     }
     // crash-point enumeration: drop A's task before its k-th poll, for every k up to the number
